@@ -26,6 +26,10 @@ the last step; start_step 1..n+1; another speed (also after update requests); an
 manual_advance, hold-step and completed shows.  Starts and stops of such instances are observed at RunningShow._start_now /
 stop (there is no event to observe).  (a) show-token substitution has a Lean model (Model/ShowToken.lean) compared with the
 real Show.get_show_steps_with_token on generated nested step dicts (harness/common/tokens_c17.py).
+Session 3d: base priorities.  Show-player entries in a mode with priority 100 played again and again (play, stop, play; the
+same request while the show runs) and a child show played from the `shows:` section of a step of a looping parent show with
+its own priority: every light-stack entry of a show carries entry priority + base priority on every play, and a competing
+entry between the right and the doubled base priority stays visible (gen_prio_case, prio_oracle).
 Oracle (model independent): effect start times follow the absolute schedule (exactly, in whole units), a synchronised
 start is on the sync grid, not in the past and at most one period away, every start posts `played`, every step has the
 token-substituted lights / colour / fade / step event, events once, nothing after stop, and at
@@ -46,8 +50,8 @@ LEAN_MODULES = ["MpfVerif.Props.C17"]
 PROPS_FILE = "MpfVerif/Props/C17.lean"
 GEN = []
 MANIFEST = {
-  "text": "Proof on a Lean model of RunningShow (mpf/assets/show.py) as driven by the show player, with exact rational times (integer numerators over one common denominator; the model never rounds: the driver refuses a unit that is too coarse for a speed, and kth_step_time_exact proves that for any rational speed num/den - 3, 3/10, 3/2 with 100 ms / 330 ms steps included - the k-th scheduled step starts at T with T*num = t0*num + (sum of the preceding durations)*den, the sum taken first and divided once): for every show (step durations incl. hold steps, speed, loop count, start step positive / negative from the end / 0 / beyond the end), every number of loops and every lateness of the loop's timer callbacks, the executed steps are a prefix of the absolute schedule anchored at the play time - or, with sync_ms, at the synchronised start time, which is proved to be a multiple of sync, strictly after the request, at most one period away and the least such multiple, nothing being played before it; for every sequence of play/stop/pause/resume/advance/step_back/update requests and timer firings a show instance posts played at most once (exactly once when it is played without sync_ms, with sync_ms exactly when it was started by its timer or by a request), stopped exactly once iff it ends up stopped, completed at most once and only in the stopping step (clean-up, stopped, the request's own events, completed - in this order), looped exactly once per consumed loop, nothing but pause acknowledgements after stopped; it never has more than one live timer (the one it can cancel), plays no step and keeps no timer once it is stopped or completed whatever requests arrive later, and has cleared its context in every player it used when it is stopped. On top of it Model/ShowKey.lean models one show-player key with every instance ever created under it: a play over an instance that still runs replaces it - at once without sync_ms, and with sync_ms by a replacement that waits for its sync point and holds the deferred stop of the old instance (start_callback; chains of waiting replacements included); for every sequence of plays, key requests (stop = also the end of the owning mode, pause, resume, advance, step_back, update) and timer callbacks of any instance it is proved that as soon as a replacement has started OR has been stopped (also before it ever started, e.g. after a pause cancelled its sync timer) every older instance is stopped and its stopped event occurs exactly once in the key's trace (replaced_show_stopped_exactly_once), that after a stop request no instance of the key runs (key_stopped_nothing_runs), that every instance's projection of the trace has stopped / played / completed once each (instance_events_once), that an instance holding a deferred stop has neither started nor stopped and names the instance created just before it (replaces_previous), and that every stopped instance - replaced ones included - has a clean context and no timer (context_removed_all). A play whose entry has no events_when_played / events_when_stopped / block_queue goes through the model of ShowController.replace_or_advance_show (KOp.playc, decision keep / advance / replace exactly as the code: replace unless the instance in the dict runs, has the identical ShowConfig - config id, loops, sync_ms and the current speed and manual_advance - and has played a step; keep when current_step_index + 1 == start_step, advance when current_step_index + 2 == start_step); all theorems above are proved for op sequences that contain such plays, and for every state it is proved that a repeated play never keeps, advances or starts an instance that still waits for its sync point - with sync_ms the request emits nothing and leaves the waiting instance, its sync timer and its start time on the grid untouched (repeated_play_keeps_sync) -, that a kept instance and every continuation of the run are unchanged (kept_instance_unchanged), and that the advance shortcut is exactly an advance request and is taken only one step before the requested start step with the identical config (advance_is_advance_request). Show-token substitution (Show.get_show_steps_with_token with _replace_token_values / _replace_token_keys incl. fix 4ec5a75) is modelled in Model/ShowToken.lean over flattened entries (path of keys, value) of segment lists produced by a scanner for the token syntax: it is total (tokens_total: all tokens supplied => no token left in any key or value at any depth), capture-free (tokens_capture_free: one token after the other through the values and then through the keys, as the code does it, equals the simultaneous substitution) and the identity without tokens / for tokens that do not occur (tokens_identity). The model is tied to the real show player / show controller / RunningShow / light player by a correspondence run on generated shows (dyadic and non-dyadic step times and speeds, sync_ms, start steps, hold steps, show files written with show tokens in keys, nested values, lists and time strings, one or two shows under one key, show player at machine level or in a mode) and control sequences on every check, with a model-independent oracle on effect timestamps (exact Fractions, tolerance 1 us), the sync grid, events per instance, deferred stops, token-substituted lights / colours / fades / step events and a twin machine without shows; repeated plays through entries without played/stopped events (decision of replace_or_advance_show compared with the model's on every such play; oracle: a waiting show is never started by a play request, a kept / advanced instance has the identical config and ends up at the requested start step); token substitution: the real get_show_steps_with_token on generated nested step dicts (tokens in keys at several depths, several tokens per key / value, tokens in list items and time strings, missing / extra / no tokens, `()` and unbalanced parentheses) against the model and against an independent regex substitution, incl. 'the show's own steps are not modified' and the step cache.",
-  "note": "Trusted: Lean kernel + {propext, Classical.choice, Quot.sound}; the hand-written model Model/Show.lean (validated only by differential runs); IEEE floats are outside the model: the implementation's float times are compared with the exact rational ones with a tolerance of 1 us, and a play request that falls (within float error) on a sync multiple is checked by the oracle only (start now or one period later are both accepted); the token model works on segment lists: token names containing '(' and replacement values containing parentheses are outside it (driver: bad-op / excluded by the generator), sibling keys that become equal after substitution are not compared, nested lists are not generated (mpf's _walk_show miscounts their indices: observation); RuntimeToken values and expand_config_entry of the players are not modelled (end-to-end oracle on the real machine only); the config id of a ShowConfig (show name, priority, show tokens, events_when_looped/... lists) is assigned by the harness; `start_step is None` (never produced by the show player) is not modelled; show queues / action queue / block_queue, show pools and players other than lights/events are outside the model and not exercised; the order of same-instant timer callbacks of two instances of one key is taken from the run; the clean-up of the light stacks themselves is checked by the oracle (twin machine) and by C09's model, not proved here.",
+  "text": "Proof on a Lean model of RunningShow (mpf/assets/show.py) as driven by the show player, with exact rational times (integer numerators over one common denominator; the model never rounds: the driver refuses a unit that is too coarse for a speed, and kth_step_time_exact proves that for any rational speed num/den - 3, 3/10, 3/2 with 100 ms / 330 ms steps included - the k-th scheduled step starts at T with T*num = t0*num + (sum of the preceding durations)*den, the sum taken first and divided once): for every show (step durations incl. hold steps, speed, loop count, start step positive / negative from the end / 0 / beyond the end), every number of loops and every lateness of the loop's timer callbacks, the executed steps are a prefix of the absolute schedule anchored at the play time - or, with sync_ms, at the synchronised start time, which is proved to be a multiple of sync, strictly after the request, at most one period away and the least such multiple, nothing being played before it; for every sequence of play/stop/pause/resume/advance/step_back/update requests and timer firings a show instance posts played at most once (exactly once when it is played without sync_ms, with sync_ms exactly when it was started by its timer or by a request), stopped exactly once iff it ends up stopped, completed at most once and only in the stopping step (clean-up, stopped, the request's own events, completed - in this order), looped exactly once per consumed loop, nothing but pause acknowledgements after stopped; it never has more than one live timer (the one it can cancel), plays no step and keeps no timer once it is stopped or completed whatever requests arrive later, and has cleared its context in every player it used when it is stopped. On top of it Model/ShowKey.lean models one show-player key with every instance ever created under it: a play over an instance that still runs replaces it - at once without sync_ms, and with sync_ms by a replacement that waits for its sync point and holds the deferred stop of the old instance (start_callback; chains of waiting replacements included); for every sequence of plays, key requests (stop = also the end of the owning mode, pause, resume, advance, step_back, update) and timer callbacks of any instance it is proved that as soon as a replacement has started OR has been stopped (also before it ever started, e.g. after a pause cancelled its sync timer) every older instance is stopped and its stopped event occurs exactly once in the key's trace (replaced_show_stopped_exactly_once), that after a stop request no instance of the key runs (key_stopped_nothing_runs), that every instance's projection of the trace has stopped / played / completed once each (instance_events_once), that an instance holding a deferred stop has neither started nor stopped and names the instance created just before it (replaces_previous), and that every stopped instance - replaced ones included - has a clean context and no timer (context_removed_all). A play whose entry has no events_when_played / events_when_stopped / block_queue goes through the model of ShowController.replace_or_advance_show (KOp.playc, decision keep / advance / replace exactly as the code: replace unless the instance in the dict runs, has the identical ShowConfig - config id, loops, sync_ms and the current speed and manual_advance - and has played a step; keep when current_step_index + 1 == start_step, advance when current_step_index + 2 == start_step); all theorems above are proved for op sequences that contain such plays, and for every state it is proved that a repeated play never keeps, advances or starts an instance that still waits for its sync point - with sync_ms the request emits nothing and leaves the waiting instance, its sync timer and its start time on the grid untouched (repeated_play_keeps_sync) -, that a kept instance and every continuation of the run are unchanged (kept_instance_unchanged), and that the advance shortcut is exactly an advance request and is taken only one step before the requested start step with the identical config (advance_is_advance_request). Show-token substitution (Show.get_show_steps_with_token with _replace_token_values / _replace_token_keys incl. fix 4ec5a75) is modelled in Model/ShowToken.lean over flattened entries (path of keys, value) of segment lists produced by a scanner for the token syntax: it is total (tokens_total: all tokens supplied => no token left in any key or value at any depth), capture-free (tokens_capture_free: one token after the other through the values and then through the keys, as the code does it, equals the simultaneous substitution) and the identity without tokens / for tokens that do not occur (tokens_identity). The model is tied to the real show player / show controller / RunningShow / light player by a correspondence run on generated shows (dyadic and non-dyadic step times and speeds, sync_ms, start steps, hold steps, show files written with show tokens in keys, nested values, lists and time strings, one or two shows under one key, show player at machine level or in a mode) and control sequences on every check, with a model-independent oracle on effect timestamps (exact Fractions, tolerance 1 us), the sync grid, events per instance, deferred stops, token-substituted lights / colours / fades / step events and a twin machine without shows; repeated plays through entries without played/stopped events (decision of replace_or_advance_show compared with the model's on every such play; oracle: a waiting show is never started by a play request, a kept / advanced instance has the identical config and ends up at the requested start step); token substitution: the real get_show_steps_with_token on generated nested step dicts (tokens in keys at several depths, several tokens per key / value, tokens in list items and time strings, missing / extra / no tokens, `()` and unbalanced parentheses) against the model and against an independent regex substitution, incl. 'the show's own steps are not modified' and the step cache. Priorities (oracle only, no theorem): every light-stack entry a show creates must carry the priority of its show-player entry + the base priority (priority of the mode that owns the show player; for a show played from the `shows:` section of a step of a parent show the parent's priority, itself entry + mode) - on the first play and on every later play of the same entry (play, stop, play again; the same request again while it runs; every loop of an endless parent show) -, checked on every effect, on the light stacks after every request, and by a competing stack entry just above the right priorities (mode priority + 50, child priority + 3) that must stay the visible colour throughout.",
+  "note": "Trusted: Lean kernel + {propext, Classical.choice, Quot.sound}; the hand-written model Model/Show.lean (validated only by differential runs); IEEE floats are outside the model: the implementation's float times are compared with the exact rational ones with a tolerance of 1 us, and a play request that falls (within float error) on a sync multiple is checked by the oracle only (start now or one period later are both accepted); the token model works on segment lists: token names containing '(' and replacement values containing parentheses are outside it (driver: bad-op / excluded by the generator), sibling keys that become equal after substitution are not compared, nested lists are not generated (mpf's _walk_show miscounts their indices: observation); RuntimeToken values and expand_config_entry of the players are not modelled (end-to-end oracle on the real machine only); the config id of a ShowConfig (show name, priority, show tokens, events_when_looped/... lists) is assigned by the harness; `start_step is None` (never produced by the show player) is not modelled; show queues / action queue / block_queue, show pools and players other than lights/events are outside the model and not exercised; the order of same-instant timer callbacks of two instances of one key is taken from the run; the clean-up of the light stacks themselves is checked by the oracle (twin machine) and by C09's model, not proved here; the priority with which a step's lights are set is not part of the Lean model (the config id of a play carries the entry's priority; base priorities are checked by the harness oracle only); a parent show and the child it plays from a step are run and checked by the oracle (priority, the child's absolute schedule per instance, stopped and off the stack when the parent stops) but are outside the per-key logs and the Lean model.",
   "technique": "Lean 4 theorems (invariants by induction over all request sequences; schedule as a prefix of the absolute schedule for all latenesses; exact rational schedule by divisibility; sync start as least multiple; chain invariant and per-instance event ledger over the list of instances of a key) on a hand model + differential correspondence with real shows + schedule/sync/token/clean-up oracle against a twin machine",
   "translated": False,
  }
@@ -74,6 +78,11 @@ RULE = ("a case = 1-2 generated show files (1-4 steps) + play settings + 3-12 co
         "at the last step), the rest pause/resume/advance/step_back/speed updates (to the same and to another speed)/stop.  "
         "A fourth stream substitutes tokens in generated nested step dicts (0-4 token names, 1-3 steps, dict depth <= 3, 1-4 "
         "parts per string, 10% list values, `()` / unbalanced parentheses, all / some / no / extra tokens supplied).  "
+        "A fifth stream (gen_prio_case) takes a case of the first or third stream, puts the show player into mode m1 (priority "
+        "100; 85%), gives every entry a priority 0/1/5, adds 1-3 `stop, play, play` / `play, play` groups for one show, a competing "
+        "entry on l1/l2 at mode priority + 50, and in 75% a parent show (priority 3/7, steps 250+125 / 125+250 / 500+125 ms, endless) "
+        "whose first step plays a child show (entry priority 0/2, 2/3/6 steps of 125 ms on l3, competing entry 3 above) through "
+        "its `shows:` section; the parent loops at least twice more before its stop and is stopped and played again in 40%.  "
         "A separate stream plays tokenised shows with a missing / an unknown token.  30% of the cases run with slow effects "
         "(late timers).  non-trivial = at least one control request lands while the show runs or the show loops/completes; "
         "distinct = canonical JSON of the case")
@@ -105,6 +114,9 @@ TPU = D // 8             # one legacy tick of 1/8 s
 MS = D // 1000
 TOL = Fraction(1, 1000000)   # 1 us: the largest deviation from the exact rational time that is accepted
 LIGHTS = ["l1", "l2"]
+MODE_PRIO = 100          # priority of mode m1: the base priority of every show its show player plays
+COMP_COLOR = (1, 2, 250)     # colour of the competing stack entry (cases with "comp")
+CHILD_MS = 125           # step time of the child show of a parent show (cases with "parent")
 EVS = ["played", "stopped", "looped", "paused", "resumed", "advanced", "stepped_back", "completed"]
 ACTIONS = {"stop": "stop", "pause": "pause", "resume": "resume", "advance": "advance", "back": "step_back"}
 SPEEDS = {"0.5": (1, 2), "1": (1, 1), "2": (2, 1), "4": (4, 1), "3": (3, 1), "0.3": (3, 10), "1.5": (3, 2)}
@@ -264,7 +276,44 @@ def show_player_yaml(case):
         for sp in SPEEDS:
             s += "  speed%s_%s:\n    sh%s:\n      key: k%s\n      action: update\n      speed: %s\n" % (
                 sp.replace(".", "p"), name, name, key, sp)
+    if case.get("parent"):
+        s += "  play_P:\n    shP:\n      priority: %d\n      loops: -1\n  stop_P:\n    shP: stop\n" % case["parent"]["prio"]
     return s
+
+
+def base_prio(case):
+    """what ShowPlayer.play adds to the priority of an entry: the priority of the mode the show player belongs to"""
+    return MODE_PRIO if case.get("mode") else 0
+
+
+def want_prio(case, name):
+    """the priority every light-stack entry of show `name` must carry - the same on every play of the entry"""
+    return case["shows"][name]["play"]["prio"] + base_prio(case)
+
+
+def child_prio(case):
+    """... of the child show played from the `shows:` section of the parent's first step: entry + parent's priority, and
+    the parent's is its own entry + the mode's"""
+    return case["parent"]["cprio"] + case["parent"]["prio"] + base_prio(case)
+
+
+def comp_prio(case):
+    """the competing entry on l1 / l2: above every right show priority, below every accumulated one (mode cases)"""
+    return base_prio(case) + 50
+
+
+def parent_shows(case):
+    """shP: step 1 plays shC (endless, on l3) through its `shows:` section, step 2 is empty; shP loops for ever, so shC is
+    requested again - through the same validated step config - every n1 + n2 ms"""
+    pa = case["parent"]
+    p = "- duration: %dms\n  shows:\n    shC:\n      priority: %d\n      loops: -1\n- duration: %dms\n" % (
+        pa["ms"][0], pa["cprio"], pa["ms"][1])
+    c = "".join("- duration: %dms\n  lights:\n    l3: %02x%02x%02x\n" % ((CHILD_MS,) + child_color(i)) for i in range(pa["csteps"]))
+    return {"shP": p, "shC": c}
+
+
+def child_color(i):
+    return (20 + i, 40 + i, 60)
 
 
 def config_yaml(case):
@@ -276,6 +325,8 @@ def config_yaml(case):
     elif lf:
         per_light = ", fade_ms: %d" % lf
     s += "lights:\n  l1: {number: 1, subtype: led%s}\n  l2: {number: 2, subtype: led%s}\n" % (per_light, per_light)
+    if case.get("parent"):
+        s += "  l3: {number: 3, subtype: led}\n"
     if case.get("mode"):
         # the show player lives in a mode: the end of the mode stops every show of its context (clear_context)
         return s + "modes:\n  - m1\n"
@@ -467,6 +518,45 @@ def gen_rep_case(r):
     return case
 
 
+def gen_prio_case(r):
+    """base priorities: the show player lives in mode m1 (priority 100; 85%), every show entry has its own priority 0/1/5 and
+    is triggered again and again (play, stop, play; re-posted while it runs), a competing entry sits on l1 / l2 at mode
+    priority + 50 - above every show, below any priority to which the mode's was added twice -, and (75%) a parent show
+    with priority 3/7 plays a child show (entry priority 0/2, on l3, competing entry 3 above it) from the `shows:` section
+    of its first step and loops over it for ever: the child is requested again through the same step config in every loop;
+    the parent itself is stopped and played again in 40% of these cases."""
+    case = gen_rep_case(r) if r.random() < 0.5 else gen_case(r, over=r.random() < 0.5)
+    for sh in case["shows"].values():
+        sh["play"]["prio"] = r.choice([0, 1, 5, 5])
+    case["mode"] = r.random() < 0.85
+    case["comp"] = True
+    nshow = len(case["shows"])
+    ops, keep = case["ops"], case["keep"]
+    if not case["mode"]:
+        ops = [op for op in ops if op[2] != "modeend"] + [[0, n, "stop"] for n in sorted(case["shows"])]
+    mid = ops[nshow:len(ops) - keep]
+    # more of `stop, play again` and `the same request again`
+    for _ in range(r.randint(1, 3)):
+        name = r.choice(sorted(case["shows"]))
+        at = r.randint(0, len(mid))
+        mid[at:at] = [[r.choice([1, 2, 4, 8]), name, "stop"], [r.choice([0, 1, 2, 6]), name, "play"], [r.choice([0, 1, 3, 8]), name, "play"]][
+            r.choice([0, 0, 1]):]
+    tail = ops[len(ops) - keep:]
+    if r.random() < 0.75:
+        case["parent"] = {"prio": r.choice([3, 7]), "cprio": r.choice([0, 2, 2]), "ms": r.choice([[250, 125], [125, 250], [500, 125]]),
+                          "csteps": r.choice([2, 3, 6])}
+        mid.insert(r.randint(0, min(2, len(mid))), [0, "P", "play"])
+        if r.random() < 0.4:
+            at = r.randint(1, len(mid))
+            mid[at:at] = [[r.choice([2, 12, 30]), "P", "stop"], [r.choice([0, 2, 5]), "P", "play"]]
+        # at least two more loops of the parent before everything is stopped
+        tail = [[r.choice([26, 33, 40]), "P", "stop"]] + tail
+        keep += 1
+    case["ops"] = ops[:nshow] + mid + tail
+    case["keep"] = keep
+    return case
+
+
 def gen_token_refusal(r):
     """a play whose show_tokens miss a token of the show / carry one the show does not have, then ordinary requests"""
     case = gen_case(r, over=False)
@@ -513,6 +603,10 @@ class Run:
         self.nseg = {k: 0 for k in self.keys}           # number of heads (requests / timer callbacks) logged per key
         self.bumped = True
         self.refused = []
+        self.child_ctx = {}     # context of every instance of the child show shC -> serial
+        self.child_objs = []
+        self.child_log = []     # its light effects
+        self.samples = []       # (time, what, {light: {"color": visible colour, "stack": [[key, priority], ...]}})
 
     def head(self, key, entry):
         """a request or a timer callback begins: what the instances do synchronously from now on, and the events they post
@@ -550,6 +644,9 @@ class Run:
         def start_play(show):
             # runs at the end of RunningShow.__init__: a new instance exists
             r = RunningShow._verif17_run
+            if r is not None and show.show.name == "shC" and show.context not in r.child_ctx:
+                r.child_ctx[show.context] = len(r.child_objs)
+                r.child_objs.append(show)
             if r is not None and show.context not in r.ctx_of:
                 name = show.show.name[2:]
                 if name in r.case["shows"]:
@@ -608,6 +705,9 @@ class Run:
 
         def color(light, color, fade_ms=None, priority=0, key=None, start_time=None):
             r = RunningShow._verif17_run
+            if r is not None and key and key.split(".")[0] in r.child_ctx:
+                r.child_log.append({"i": r.child_ctx[key.split(".")[0]], "light": light.name, "color": tuple(color), "prio": priority,
+                                    "st": units(start_time) if start_time else None, "t": units(r.vm.now())})
             if r is not None and key and key.split(".")[0] in r.ctx_of:
                 k, i = r.ctx_of[key.split(".")[0]]
                 r.note(k, {"k": "eff", "i": i, "light": light.name, "color": tuple(color), "prio": priority, "fade": fade_ms,
@@ -669,9 +769,21 @@ class Run:
                       "hw": [round(light.hw_drivers[c][0].current_brightness * 255, 6) for c in ("red", "green", "blue")]}
         return out
 
+    def sample(self, what):
+        """the lights as they are now: visible colour and the priorities on the stack"""
+        if self.twin or not (self.case.get("comp") or self.case.get("parent")):
+            return
+        out = {}
+        for l in LIGHTS + (["l3"] if self.case.get("parent") else []):
+            light = self.vm.machine.lights[l]
+            out[l] = {"color": tuple(light.get_color()), "stack": [[str(e.key), e.priority] for e in light.stack]}
+        self.samples.append((units(self.vm.now()), what, out))
+
     def execute(self):
         case = self.case
         shows = {"sh" + n: show_yaml(n, sh["spec"]) for n, sh in case["shows"].items()}
+        if case.get("parent"):
+            shows.update(parent_shows(case))
         try:
             self.vm = VMachine(config_yaml(case), shows=shows, modes={"m1": mode_yaml(case)} if case.get("mode") else None).start()
         except BootError as e:
@@ -696,6 +808,12 @@ class Run:
             if case["bg"]:
                 m.lights["l1"].color((3, 3, 3), key="bg", priority=0, fade_ms=0)
                 m.lights["l2"].color((4, 4, 4), key="bg", priority=0, fade_ms=0)
+            if case.get("comp"):
+                # a competing entry between the right priority of the shows and twice their base priority
+                for l in LIGHTS:
+                    m.lights[l].color(COMP_COLOR, key="comp", priority=comp_prio(case), fade_ms=0)
+            if case.get("parent"):
+                m.lights["l3"].color(COMP_COLOR, key="comp", priority=child_prio(case) + 3, fade_ms=0)
             ended = False       # the mode (and with it the show player's entries) is gone
             for gap, name, act in case["ops"]:
                 target = self.vm.now() + gap * 2 * UNIT
@@ -704,6 +822,7 @@ class Run:
                         self.vm.advance(target - self.vm.now())
                 except Exception as e:  # noqa
                     self.fail.append(("crash-in-callback", {"error": repr(e)}))
+                self.sample("before")
                 if ended or (act == "modeend" and not case.get("mode")):
                     continue
                 if act == "modeend":
@@ -716,8 +835,19 @@ class Run:
                         self.vm.advance(0)
                     except Exception as e:  # noqa
                         self.fail.append(("crash-modeend", {"error": repr(e)}))
+                    self.sample("modeend")
                     continue
                 if self.twin:
+                    continue
+                if name == "P":
+                    # the parent show (outside the per-key logs and the Lean model): play / stop through its entries
+                    if case.get("parent"):
+                        try:
+                            self.vm.post("%s_P" % act)
+                            self.vm.advance(0)
+                        except Exception as e:  # noqa
+                            self.fail.append(("crash-parent-" + act, {"error": repr(e)}))
+                        self.sample("%s_P" % act)
                     continue
                 self.head(key_of(case, name), {"k": "op", "act": act, "show": name, "t": units(self.vm.now()),
                                                "exact": (Fraction(self.vm.now()) * D).denominator == 1})
@@ -729,10 +859,13 @@ class Run:
                         self.refused.append(name)       # a token is missing / unknown: the play request is refused
                     else:
                         self.fail.append(("crash-" + act, {"show": name, "error": repr(e)}))
+                self.sample(event_of(act, name))
             try:
                 self.vm.advance(case["tail"] * 2 * UNIT)
             except Exception as e:  # noqa
                 self.fail.append(("crash-in-callback", {"error": repr(e)}))
+            self.sample("end")
+            self.child_stopped = "".join("S" if o._stopped else "R" for o in self.child_objs)
             self.final = self.light_state()
             self.end = units(self.vm.now())
             # a later low-priority fade on the same lights: the hardware must get the same fade commands as in the twin
@@ -1107,6 +1240,69 @@ def oracle(run, case):
     return fails
 
 
+def prio_oracle(run, case):
+    """every light-stack entry a show creates carries the config priority of its entry + the base priority (mode, parent
+    show) - on the first play and on every later one -, so an entry with a priority above all of them (and below twice
+    the base priority) stays visible whatever the shows do; the child show of a looping parent follows its own absolute
+    schedule in every loop and is gone - with its stack entries - once the parent is stopped."""
+    fails = []
+    want = {}
+    for key in run.keys:
+        nplay = {}
+        for e in run.logs[key]:
+            if e["k"] == "new":
+                nplay[e["show"]] = nplay.get(e["show"], 0) + 1
+            if e["k"] == "eff":
+                name = run.inst_show[key][e["i"]]
+                if e["prio"] != want_prio(case, name):
+                    fails.append(("show-light-priority-wrong", {
+                        "show": name, "instance": e["i"], "light": e["light"], "priority": e["prio"], "want": want_prio(case, name),
+                        "entry_priority": case["shows"][name]["play"]["prio"], "base_priority": base_prio(case),
+                        "play_number_of_show": nplay.get(name)}))
+                    break
+    for ctx, (key, i) in run.ctx_of.items():
+        want[ctx] = want_prio(case, run.inst_show[key][i])
+    if case.get("parent"):
+        pa = case["parent"]
+        for ctx in run.child_ctx:
+            want[ctx] = child_prio(case)
+        per = {}
+        for e in run.child_log:
+            per.setdefault(e["i"], []).append(e)
+            if e["prio"] != child_prio(case) or e["light"] != "l3":
+                fails.append(("child-show-light-priority-wrong", {
+                    "child_instance": e["i"], "light": e["light"], "priority": e["prio"], "want": child_prio(case),
+                    "entry_priority": pa["cprio"], "parent_priority": pa["prio"], "mode_priority": base_prio(case)}))
+                break
+        for i, effs in sorted(per.items()):
+            # the child's steps: 1, 2, ... n, 1, ... every CHILD_MS, anchored at its first step
+            got = [(e["color"], e["st"]) for e in effs]
+            exp = [(child_color(j % pa["csteps"]), effs[0]["st"] + j * CHILD_MS * MS) for j in range(len(effs))]
+            if got != exp:
+                fails.append(("child-show-off-schedule", {"child_instance": i, "got": got[:8], "want": exp[:8]}))
+                break
+        if "R" in run.child_stopped:
+            fails.append(("child-show-still-running-at-end", {"instances_oldest_first": run.child_stopped}))
+    for t, what, lights in run.samples:
+        bad = None
+        for l, st in sorted(lights.items()):
+            for k, pr in st["stack"]:
+                c = k.split(".")[0]
+                if c in want and pr != want[c]:
+                    bad = ("show-stack-entry-priority-wrong", {"at": t, "after": what, "light": l, "stack": st["stack"],
+                                                               "entry": k, "priority": pr, "want": want[c]})
+            if bad is None and (case.get("comp") or l == "l3") and st["color"] != COMP_COLOR:
+                bad = ("competing-entry-not-visible", {
+                    "at": t, "after": what, "light": l, "color": st["color"], "want": COMP_COLOR, "stack": st["stack"],
+                    "competing_priority": child_prio(case) + 3 if l == "l3" else comp_prio(case)})
+            if bad is None and what == "end" and [k for k, _ in st["stack"] if k.split(".")[0] in want]:
+                bad = ("show-stack-entry-left-at-end", {"light": l, "stack": st["stack"]})
+        if bad:
+            fails.append(bad)
+            break
+    return fails
+
+
 def to_model_lines(run, case, key):
     lines = []
     last_t = 0
@@ -1235,6 +1431,7 @@ def execute_case(case):
     if OFFGRID:
         run.fail.append(("time-off-exact-rational-schedule", {"times": OFFGRID[:5], "tolerance_s": float(TOL)}))
     run.fail += oracle(run, case)
+    run.fail += prio_oracle(run, case)
     for key, flags in sorted(run.stopped.items()):
         if "R" in flags and not any(key_of(case, n) == key for n in run.refused):
             # after the key was stopped (or its mode ended) no RunningShow ever created under it may still run
@@ -1302,6 +1499,16 @@ def one_case(ctx, model, case):
             ctx.count("show_entry_without_played_stopped_events" if shw.get("plain") else "show_entry_with_events_in_rep_case")
     if case.get("mode"):
         ctx.count("cases_show_player_in_mode")
+    if case.get("comp"):
+        ctx.count("cases_competing_entry_between_right_and_accumulated_priority")
+        for key in run.keys:
+            for n in set(run.inst_show[key]):
+                if run.inst_show[key].count(n) > 1:
+                    ctx.count("prio_show_entry_played_again_with_base_priority" if case.get("mode") else "prio_show_entry_played_again")
+    if case.get("parent"):
+        ctx.count("cases_parent_show_with_child_in_step")
+        for _ in run.child_objs[1:]:
+            ctx.count("child_show_requested_again_by_parent_loop_or_replay")
     for name, shw in case["shows"].items():
         spec, play = shw["spec"], shw["play"]
         if "ms" in spec:
@@ -1469,6 +1676,30 @@ CORPUS5 = [
 CORPUS5[2]["shows"]["A"]["spec"]["ztok"] = True
 
 
+def prio(shows, ops, keep, **kw):
+    return over(shows, ops, keep, comp=True, **kw)
+
+
+PARENT = {"prio": 7, "cprio": 2, "ms": [250, 125], "csteps": 3}
+# session 3d: base priorities (mode / parent show) are added once per play, not once more on every play of the same entry
+CORPUS6 = [
+    # the seeded change: entry of a mode's show player played, stopped, played again, re-posted while it runs
+    prio({"A": sh([2, 2], lights=2, prio=5), "B": plain(sh([4, 2], prio=0))}, keep=3, mode=True, rep=True,
+         ops=[[0, "A", "play"], [0, "B", "play"], [6, "A", "stop"], [2, "A", "play"], [3, "A", "play"], [4, "B", "play"],
+              [2, "B", "play@2"], [9, "B", "stop"], [1, "B", "play"], [12, "A", "stop"], [0, "B", "stop"], [2, "A", "resume"]]),
+    # ... a child show in a step of a looping parent (in the mode / at machine level); the parent played a second time
+    prio({"A": sh([2, 2], prio=1)}, keep=3, mode=True, parent=PARENT,
+         ops=[[0, "A", "play"], [0, "P", "play"], [30, "A", "advance"], [6, "P", "stop"], [2, "P", "play"], [4, "A", "play"],
+              [30, "P", "stop"], [0, "A", "stop"], [2, "A", "resume"]]),
+    prio({"A": sh([2, 2], prio=1)}, keep=3, parent=dict(PARENT, ms=[125, 250], csteps=2, cprio=0), slow=True,
+         ops=[[0, "A", "play"], [0, "P", "play"], [40, "A", "advance"], [0, "A", "play"], [2, "P", "stop"], [0, "A", "stop"],
+              [2, "A", "resume"]]),
+    prio({"A": sh([2, 3], prio=5, sync=250), "B": shk("A", [4], prio=1, loops=2)}, keep=2, mode=True, parent=PARENT,
+         ops=[[0, "A", "play"], [1, "P", "play"], [8, "B", "play"], [6, "A", "play"], [30, "P", "stop"], [2, "*", "modeend"],
+              [2, "A", "resume"]]),
+]
+
+
 def run(ctx):
     model = None if getattr(ctx, "model_unavailable", False) else leanproc.LeanProc(ID)
     ctx.notes["time_units_per_second"] = D
@@ -1480,8 +1711,10 @@ def run(ctx):
             one_case(ctx, None, case)
         for i in range(ctx.n(40, 300)):
             one_case(ctx, None, gen_token_refusal(ctx.rng("tokens", i)))
-        for case in CORPUS5:
+        for case in CORPUS5 + CORPUS6:
             one_case(ctx, model, case)
+        for i in range(ctx.n(70, 700)):
+            one_case(ctx, model, gen_prio_case(ctx.rng("prio", i)))
         # show-token substitution: the real Show.get_show_steps_with_token on generated nested step dicts vs Model/ShowToken.lean
         for case in tokens_c17.CORPUS:
             tokens_c17.one_case(ctx, model, case)
